@@ -79,6 +79,7 @@ theorem predFut_invoke_ok (x : MonCtx) (m : PredSt) (f : Nat)
     (h2 : ∀ u, reachPlus (if x.rev then x.userD.flip else x.userD) u f = true → u ∈ m.realEndedOk)
     (h1b : ∀ p ∈ parents x.c.D f, p ∈ m.realEndedOk)
     (h7 : ∀ y ∈ m.realFailed, reachPlus x.c.D y f = false)
+    (h7c : ∀ y ∈ m.realFailed, y = f ∨ conflict (declOf x.decls y) (declOf x.decls f) = false)
     (h10s : x.c.sequential = true → m.realInflight.length + 1 ≤ 1)
     (h10p : x.c.sequential = false → ∀ l, x.c.limit = some (l + 1) → m.realInflight.length + 1 ≤ l + 1)
     (h8 : ∀ k b, m.intrAt = some k → boundOf x.c.strat x.c.incl m.intrPre = some b →
@@ -86,7 +87,7 @@ theorem predFut_invoke_ok (x : MonCtx) (m : PredSt) (f : Nat)
     ∀ n ∈ (predFut x m (.invoke f)).2, n.ok = true := by
   simp only [predFut, List.mem_append, List.mem_cons, List.not_mem_nil, or_false]
   rintro n (hn | hn)
-  · rcases hn with rfl | rfl | rfl | rfl | rfl | rfl
+  · rcases hn with rfl | rfl | rfl | rfl | rfl | rfl | rfl
     · simp [Note.ok, h3]
     · simp [Note.ok, h1]
     · simp only [Note.ok, List.all_eq_true, Bool.or_eq_true, Bool.not_eq_true', decide_eq_true_eq]
@@ -98,6 +99,8 @@ theorem predFut_invoke_ok (x : MonCtx) (m : PredSt) (f : Nat)
       exact h1b
     · simp only [Note.ok, List.all_eq_true, Bool.not_eq_true']
       exact h7
+    · simp only [Note.ok, List.all_eq_true, Bool.or_eq_true, beq_iff_eq, Bool.not_eq_true']
+      exact h7c
     · simp only [Note.ok]
       cases hs : x.c.sequential with
       | true => simpa using h10s hs
@@ -121,7 +124,10 @@ theorem predFut_invoke_ok (x : MonCtx) (m : PredSt) (f : Nat)
 theorem predFut_q_ok (x : MonCtx) (m : PredSt)
     (hdead : m.realInflight ≠ [])
     (h6 : m.intrAt = none → m.realFailed = [] → x.c.sequential = false →
-      (x.c.limit = none ∨ x.c.limit = some 0) → allBlockedB x.c m.realInvoked m.realEndedOk = true) :
+      (x.c.limit = none ∨ x.c.limit = some 0) → allBlockedB x.c m.realInvoked m.realEndedOk = true)
+    (h10 : m.intrAt = none → m.realFailed = [] → x.c.sequential = false →
+      ∀ l, x.c.limit = some (l + 1) → m.realInflight.length < l + 1 →
+      allBlockedB x.c m.realInvoked m.realEndedOk = true) :
     ∀ n ∈ (predFut x m .q).2, n.ok = true := by
   have hd : m.realInflight.isEmpty = false := by
     cases h : m.realInflight with
@@ -155,8 +161,8 @@ theorem predFut_q_ok (x : MonCtx) (m : PredSt)
       · cases hn
   simp only [predFut, hd, Bool.not_false]
   intro n hn
-  rw [List.mem_append, List.mem_append] at hn
-  rcases hn with (hn | hn) | hn
+  rw [List.mem_append, List.mem_append, List.mem_append] at hn
+  rcases hn with ((hn | hn) | hn) | hn
   · exact hpre n hn
   · split at hn
     · split at hn
@@ -180,6 +186,17 @@ theorem predFut_q_ok (x : MonCtx) (m : PredSt)
           exact h6' hc hs (Or.inr hlim)
         · cases hn
       · simp [hs, hlim] at hn
+  · rcases hlim : x.c.limit with _ | _ | l
+    · simp only [hlim] at hn; cases hn
+    · simp only [hlim] at hn; cases hn
+    · simp only [hlim] at hn
+      split at hn
+      · rename_i hc
+        simp only [Bool.and_eq_true, Option.isNone_iff_eq_none, List.isEmpty_iff, Bool.not_eq_true',
+          decide_eq_true_eq] at hc
+        simp only [List.mem_singleton] at hn; subst hn
+        exact h10 hc.1.1.1 hc.1.1.2 hc.1.2 l hlim hc.2
+      · cases hn
 
 theorem predFut_retErr_ok (x : MonCtx) (m : PredSt) (f : Nat)
     (hi : m.realInflight = []) (hf : m.realFailed = [f]) (hl : m.realInvoked.getLast? = some f) :
